@@ -150,6 +150,24 @@ def fam_ops(rng):
     return rs, cfg, _ops_case()
 
 
+def fam_reads(rng):
+    """what the scanner asks its input routine for: one source, 1-byte reads, every action logs the
+    number of bytes delivered so far (C03: an interactive scanner does not read past the first point
+    at which no longer match is possible; a batch scanner reads exactly one byte further)"""
+    rs = rules.gen_ruleset(rng, p_trail=rng.choice([0.0, 0.2]))
+    inter = rng.choice([True, True, False, None])
+    cfg = rt.Config(backend=_backend(rng), topt=_compressed(rng) if inter is not False else rng.choice(TOPTS), interactive=inter,
+                    yymore=rng.random() < 0.3, array=rng.random() < 0.2)
+    inner = _ops_case(kinds=['less', 'input', 'begin', 'return'] + (['more'] if cfg.yymore else []))
+
+    def gen(rng, rs, cfg):
+        c = inner(rng, rs, cfg)
+        c['sched'] = [1]
+        c['logreads'] = True
+        return c
+    return rs, cfg, gen
+
+
 def fam_deepstack(rng):
     """start-condition stacks deep enough to be grown (YY_START_STACK_INCR = 25) once or several times"""
     rs = rules.gen_ruleset(rng, p_trail=0.0)
@@ -373,4 +391,4 @@ def fam_matrix(rng, idx):
 
 
 FAMILIES = {'buffers': fam_buffers, 'include': fam_include, 'plain': fam_plain, 'ops': fam_ops, 'unput': fam_unput, 'reject': fam_reject,
-            'lineno': fam_lineno, 'trail': fam_trail, 'eof': fam_eof, 'deepstack': fam_deepstack}
+            'lineno': fam_lineno, 'trail': fam_trail, 'eof': fam_eof, 'deepstack': fam_deepstack, 'reads': fam_reads}
